@@ -188,6 +188,7 @@ def build_fs(spec):
     cfg = spec.get("cfg", {})
     fsd = spec.get("fs") or {}
     fs = seams.SimFS(seed=cfg.get("fs_seed", 0), chunk_max=cfg.get("chunk_max", 0), locale=cfg.get("locale", "utf-8"))
+    fs.no_collision = bool(cfg.get("no_collision"))
     for p, t in (fsd.get("files") or {}).items():
         fs.files[p] = t.encode("utf-8")
     for p, h in (fsd.get("binfiles") or {}).items():
@@ -242,6 +243,7 @@ class Alone:
     def _parse(self, text, ms, bkind, first, srcclass):
         self.computed += 1
         env = seams.RunEnv()
+        env.fs.no_collision = srcclass != "path"  # reference: a text is a text, whatever the file system holds
         if srcclass == "path":
             env.fs.files["/alone/doc.feature"] = text.encode("utf-8")
         with seams.swap_env(env):
@@ -259,6 +261,7 @@ class Alone:
         if r is None:
             self.computed += 1
             env = seams.RunEnv()
+            env.fs.no_collision = srcclass != "path"
             if srcclass == "path":
                 env.fs.files["/alone/doc.feature"] = text.encode("utf-8")
             with seams.swap_env(env):
@@ -456,7 +459,7 @@ class Run:
                 continue
             if r["raw"] != r["snap"]:
                 r["stable_reported"] = True
-                self.violation("C15-stable", ts.ti, upto, "$earlier[%d]%s" % (j, (first_diff(r["snap"], r["raw"]) or "$")[1:]), r["snap"], r["raw"])
+                self.violation(self.spec.get("prop", "C15") + "-stable", ts.ti, upto, "$earlier[%d]%s" % (j, (first_diff(r["snap"], r["raw"]) or "$")[1:]), r["snap"], r["raw"])
 
     # ---- execution ----
     def estimate_steps(self, states):
@@ -542,7 +545,8 @@ class Run:
             "fs": dict(fs_stats(env.fs)),
             "gate": seams.GATE,
         }
-        return {"violations": self.violations, "schedule": list(k.schedule) if k else None, "digest": h.hexdigest(),
+        sd = hashlib.sha256(canon([self.spec, list(k.schedule) if k else None, [e[:3] for e in k.events] if k else None]).encode()).hexdigest()
+        return {"violations": self.violations, "schedule": list(k.schedule) if k else None, "digest": h.hexdigest(), "sched_digest": sd,
                 "stats": st, "opdigests": opd}
 
 
